@@ -57,8 +57,12 @@ def run_case(case):
     kind, prec, struct = case['kind'], case['precision'], case['struct']
     K = int(rng.choice([2, 3, 4, 7, 12]))
     T = int(rng.integers(1, 7))
-    mode = int(rng.integers(3))
-    declared = [int(v) for v in (rng.permutation(K) if mode == 0 else (int(rng.integers(0, 200)) + rng.permutation(3 * K)[:K]) if mode == 1 else rng.choice(256, K, replace=False))]
+    mode = int(rng.integers(4))
+    if mode == 3:
+        declared = [int(v) for v in rng.choice(np.arange(-100, 100), K, replace=False)]       # signed intermediate values: negative class labels
+        t.count('negative_class_labels')
+    else:
+        declared = [int(v) for v in (rng.permutation(K) if mode == 0 else (int(rng.integers(0, 200)) + rng.permutation(3 * K)[:K]) if mode == 1 else rng.choice(256, K, replace=False))]
     per = T + 5 + int(rng.integers(0, 10))
     counts = np.full(K, per)
     if struct == 'unbalanced':
@@ -79,12 +83,12 @@ def run_case(case):
         tdtype = ['float32', 'float64'][int(rng.integers(2))]
     p = rng.permutation(len(cls_idx))
     bsamples = bsamples[p].astype(tdtype)
-    bvalues = np.array(declared)[cls_idx][p].astype('uint8' if max(declared) < 256 else 'uint16')
+    bvalues = np.array(declared)[cls_idx][p].astype(('int8' if rng.random() < 0.5 else 'int16') if min(declared) < 0 else 'uint8' if max(declared) < 256 else 'uint16')
     nb = len(bvalues)
     # extra building traces with an undeclared value must be ignored
     n_foreign = int(rng.integers(0, 4))
     if n_foreign:
-        fv = [v for v in range(256) if v not in declared][:n_foreign]
+        fv = [v for v in (range(256) if min(declared) >= 0 else range(-120, 120)) if v not in declared][:n_foreign]
         bs_all = np.concatenate([bsamples, (rng.normal(0, 50, (n_foreign, T))).astype(tdtype)])
         bv_all = np.concatenate([bvalues, np.array(fv, dtype=bvalues.dtype)])
         q = rng.permutation(len(bv_all))
